@@ -50,50 +50,133 @@ theorem unv_cons_lt (U al : List Path) (p : Path) (hU : p ∈ U) (hp : p ∉ al)
 
 def Res.isOut : Res → Bool | .outOfFuel => true | _ => false
 
-/-- HDF5 files carry no includes of their own (hypothesis of the union theorems; the general case is
-    covered by the correspondence check and by the `h5cycle` witness). -/
+/-- HDF5 files carry no includes of their own (needed only for today's handling of HDF5 includes, `sh = false`;
+    the repaired handling needs no such hypothesis) -/
 def H5Leaf (fs : FS) : Prop := ∀ p f, fs p = some f → kindOf p = .h5 → f.hrefs = []
 
 /-- every include of every file resolves inside `U` -/
 def ClosedIn (fs : FS) (cwd : Path) (U : List Path) : Prop :=
   ∀ p file, fs p = some file → ∀ h ∈ file.hrefs, resolveHref fs cwd p.dropLast h ∈ U
 
-theorem fold_nonok (fs : FS) (cwd base : Path) (rec : Path → List Path → Res) (r : Res)
-    (hr : ∀ al d, r ≠ .ok al d) : ∀ hs : List (List String), hs.foldl (step fs cwd base rec) r = r
+theorem fold_nonok (sh : Bool) (fs : FS) (cwd base : Path) (rec : Path → List Path → Res) (r : Res)
+    (hr : ∀ al l d, r ≠ .ok al l d) : ∀ hs : List (List String), hs.foldl (step sh fs cwd base rec) r = r
   | [] => rfl
   | h :: hs => by
-    have : step fs cwd base rec r h = r := by
+    have : step sh fs cwd base rec r h = r := by
       cases r with
-      | ok al d => exact absurd rfl (hr al d)
+      | ok al l d => exact absurd rfl (hr al l d)
       | _ => rfl
     simp only [List.foldl_cons, this]
-    exact fold_nonok fs cwd base rec r hr hs
+    exact fold_nonok sh fs cwd base rec r hr hs
 
-theorem visit_leaf (fs : FS) (cwd : Path) (f : Nat) (p : Path) (file : File) (al : List Path)
-    (hp : fs p = some file) (hl : file.hrefs = []) : visit fs cwd (f+1) p al = .ok al file.comps := by
+theorem visit_leaf (sh : Bool) (fs : FS) (cwd : Path) (f : Nat) (p : Path) (file : File) (al : List Path)
+    (hp : fs p = some file) (hl : file.hrefs = []) : visit sh fs cwd (f+1) p al = .ok al [p] file.comps := by
   simp [visit, hp, hl]
+
+/-! ### inversion of one step / of the fold -/
+
+/-- what a successful step did: either the include was skipped (already marked), or a file was read. -/
+theorem step_ok_inv {sh : Bool} {fs : FS} {cwd base : Path} {rec : Path → List Path → Res}
+    {a l : List Path} {d : List Comp} {h : List String} {a1 l1 : List Path} {d1 : List Comp}
+    (hst : step sh fs cwd base rec (.ok a l d) h = .ok a1 l1 d1) :
+    (resolveHref fs cwd base h ∈ a ∧ a1 = a ∧ l1 = l ∧ d1 = d) ∨
+    (resolveHref fs cwd base h ∉ a ∧ ∃ a' sl sub,
+      l1 = l ++ sl ∧ d1 = addAll sub d ∧
+      ((rec (resolveHref fs cwd base h) (resolveHref fs cwd base h :: a) = .ok a' sl sub ∧ a1 = a' ∧
+          (kindOf (resolveHref fs cwd base h) = .xml ∨ (kindOf (resolveHref fs cwd base h) = .h5 ∧ sh = true))) ∨
+       (rec (resolveHref fs cwd base h) [] = .ok a' sl sub ∧ a1 = resolveHref fs cwd base h :: a ∧
+          kindOf (resolveHref fs cwd base h) = .h5 ∧ sh = false))) := by
+  generalize hloc : resolveHref fs cwd base h = loc at *
+  unfold step at hst
+  simp only [hloc] at hst
+  by_cases hia : loc ∈ a
+  · simp only [hia, if_true] at hst
+    cases hst
+    exact Or.inl ⟨hia, rfl, rfl, rfl⟩
+  · simp only [hia, if_false] at hst
+    refine Or.inr ⟨hia, ?_⟩
+    cases hk : kindOf loc with
+    | other => simp [hk] at hst
+    | xml =>
+      simp only [hk] at hst
+      cases hv : rec loc (loc :: a) with
+      | ok a' sl sub =>
+        simp only [hv] at hst
+        cases hst
+        exact ⟨_, _, _, rfl, rfl, Or.inl ⟨rfl, rfl, Or.inl rfl⟩⟩
+      | outOfFuel => simp [hv] at hst
+      | missing => simp [hv] at hst
+      | badExt => simp [hv] at hst
+    | h5 =>
+      simp only [hk] at hst
+      cases sh with
+      | true =>
+        simp only [if_true] at hst
+        cases hv : rec loc (loc :: a) with
+        | ok a' sl sub =>
+          simp only [hv] at hst
+          cases hst
+          exact ⟨_, _, _, rfl, rfl, Or.inl ⟨rfl, rfl, Or.inr ⟨rfl, rfl⟩⟩⟩
+        | outOfFuel => simp [hv] at hst
+        | missing => simp [hv] at hst
+        | badExt => simp [hv] at hst
+      | false =>
+        simp only [Bool.false_eq_true, if_false] at hst
+        cases hv : rec loc [] with
+        | ok a' sl sub =>
+          simp only [hv] at hst
+          cases hst
+          exact ⟨_, _, _, rfl, rfl, Or.inr ⟨rfl, rfl, rfl, rfl⟩⟩
+        | outOfFuel => simp [hv] at hst
+        | missing => simp [hv] at hst
+        | badExt => simp [hv] at hst
+
+theorem fold_cons_ok_inv {sh : Bool} {fs : FS} {cwd base : Path} {rec : Path → List Path → Res}
+    {acc : Res} {h : List String} {hs : List (List String)} {al' l' : List Path} {doc : List Comp}
+    (hf : (h :: hs).foldl (step sh fs cwd base rec) acc = .ok al' l' doc) :
+    ∃ a1 l1 d1, step sh fs cwd base rec acc h = .ok a1 l1 d1 ∧
+      hs.foldl (step sh fs cwd base rec) (.ok a1 l1 d1) = .ok al' l' doc := by
+  simp only [List.foldl_cons] at hf
+  cases hst : step sh fs cwd base rec acc h with
+  | ok a1 l1 d1 => rw [hst] at hf; exact ⟨a1, l1, d1, rfl, hf⟩
+  | outOfFuel => rw [hst, fold_nonok _ _ _ _ _ _ (by intro _ _ _ hh; cases hh)] at hf; cases hf
+  | missing => rw [hst, fold_nonok _ _ _ _ _ _ (by intro _ _ _ hh; cases hh)] at hf; cases hf
+  | badExt => rw [hst, fold_nonok _ _ _ _ _ _ (by intro _ _ _ hh; cases hh)] at hf; cases hf
 
 /-! ### keys and the merge -/
 
-def keys (d : List Comp) : List (String × String) := d.map key
+def key (c : Comp) : String × Ident := (c.list, c.id)
 
-theorem mem_keys_addOne (t : List Comp) (c : Comp) (k : String × String) :
+def keys (d : List Comp) : List (String × Ident) := d.map key
+
+/-- the keys of the components that do have an id attribute -/
+def idKeys (d : List Comp) : List (String × Ident) := (d.filter (fun c => !idless c)).map key
+
+theorem any_same_iff (t : List Comp) (c : Comp) :
+    t.any (fun x => same x c) = true ↔ (c.id ≠ .absent ∧ key c ∈ keys t) := by
+  simp only [List.any_eq_true, same, decide_eq_true_eq, keys, key, List.mem_map]
+  constructor
+  · rintro ⟨x, hx, hl, hne, hid⟩
+    exact ⟨hid ▸ hne, x, hx, by rw [hl, hid]⟩
+  · rintro ⟨hne, x, hx, he⟩
+    have h1 : x.list = c.list := congrArg Prod.fst he
+    have h2 : x.id = c.id := congrArg Prod.snd he
+    exact ⟨x, hx, h1, h2 ▸ hne, h2⟩
+
+theorem mem_keys_addOne (t : List Comp) (c : Comp) (k : String × Ident) :
     k ∈ keys (addOne t c) ↔ k ∈ keys t ∨ k = key c := by
   unfold addOne
-  by_cases h : t.any (fun x => key x = key c) = true
+  by_cases h : t.any (fun x => same x c) = true
   · simp only [h, if_true]
     constructor
     · intro hk; exact Or.inl hk
     · rintro (hk | hk)
       · exact hk
-      · subst hk
-        obtain ⟨x, hx, hxe⟩ := List.any_eq_true.mp h
-        have : key x = key c := by simpa using hxe
-        exact this ▸ List.mem_map_of_mem hx
+      · subst hk; exact ((any_same_iff t c).mp h).2
   · simp only [h]
     simp [keys, List.mem_append, eq_comm]
 
-theorem mem_keys_addAll (s t : List Comp) (k : String × String) :
+theorem mem_keys_addAll (s t : List Comp) (k : String × Ident) :
     k ∈ keys (addAll s t) ↔ k ∈ keys t ∨ k ∈ keys s := by
   unfold addAll
   induction s generalizing t with
@@ -112,29 +195,96 @@ theorem mem_keys_addAll (s t : List Comp) (k : String × String) :
       · exact Or.inl (Or.inr h)
       · exact Or.inr h
 
-theorem nodup_keys_addOne (t : List Comp) (c : Comp) (h : (keys t).Nodup) : (keys (addOne t c)).Nodup := by
+theorem addAll_append (s₁ s₂ t : List Comp) : addAll (s₁ ++ s₂) t = addAll s₂ (addAll s₁ t) := by
+  simp [addAll, List.foldl_append]
+
+/-- the merge only appends: the target is a prefix of the result -/
+theorem addAll_prefix (s t : List Comp) : ∃ n, addAll s t = t ++ n := by
+  unfold addAll
+  induction s generalizing t with
+  | nil => exact ⟨[], by simp⟩
+  | cons c s ih =>
+    simp only [List.foldl_cons]
+    obtain ⟨n, hn⟩ := ih (addOne t c)
+    rw [hn]
+    unfold addOne
+    by_cases h : t.any (fun x => same x c) = true
+    · simp only [h, if_true]; exact ⟨n, rfl⟩
+    · simp only [h, Bool.false_eq_true, ↓reduceIte]; exact ⟨c :: n, by simp⟩
+
+theorem addAll_addOne (own doc : List Comp) (c : Comp) :
+    addAll (addOne own c) doc = addOne (addAll own doc) c := by
+  by_cases h : own.any (fun x => same x c) = true
+  · have h' : (addAll own doc).any (fun x => same x c) = true := by
+      rw [any_same_iff] at h ⊢
+      exact ⟨h.1, (mem_keys_addAll own doc (key c)).mpr (Or.inr h.2)⟩
+    unfold addOne
+    simp only [h, h', if_true]
+  · have e1 : addOne own c = own ++ [c] := by unfold addOne; simp only [h, Bool.false_eq_true, ↓reduceIte]
+    rw [e1, addAll_append]
+    rfl
+
+/-- **merging a merged document = merging its parts in order** (what makes the result of the recursive
+    include loop a left-to-right merge of the files in the order they were read) -/
+theorem addAll_assoc (cs own doc : List Comp) : addAll (addAll cs own) doc = addAll cs (addAll own doc) := by
+  induction cs generalizing own with
+  | nil => rfl
+  | cons c cs ih =>
+    show addAll (addAll cs (addOne own c)) doc = addAll cs (addOne (addAll own doc) c)
+    rw [ih (addOne own c), addAll_addOne]
+
+theorem filter_idless_addOne (t : List Comp) (c : Comp) :
+    (addOne t c).filter idless = t.filter idless ++ [c].filter idless := by
   unfold addOne
-  by_cases hh : t.any (fun x => key x = key c) = true
+  by_cases h : t.any (fun x => same x c) = true
+  · have hne := ((any_same_iff t c).mp h).1
+    have : idless c = false := by simp [idless, hne]
+    simp [h, List.filter_cons, this]
+  · simp only [h]; simp [List.filter_append]
+
+/-- components without an id are never recognised: every one of the source is appended -/
+theorem filter_idless_addAll (s t : List Comp) :
+    (addAll s t).filter idless = t.filter idless ++ s.filter idless := by
+  unfold addAll
+  induction s generalizing t with
+  | nil => simp
+  | cons c s ih =>
+    simp only [List.foldl_cons]
+    rw [ih, filter_idless_addOne]
+    simp [List.filter_cons]
+    split <;> simp
+
+theorem nodup_idKeys_addOne (t : List Comp) (c : Comp) (h : (idKeys t).Nodup) : (idKeys (addOne t c)).Nodup := by
+  unfold addOne
+  by_cases hh : t.any (fun x => same x c) = true
   · simpa [hh] using h
   · simp only [hh, Bool.false_eq_true, ↓reduceIte]
-    have hnot : key c ∉ keys t := by
-      intro hm
-      apply hh
-      obtain ⟨x, hx, hxe⟩ := List.mem_map.mp hm
-      exact List.any_eq_true.mpr ⟨x, hx, by simpa using hxe⟩
-    have e : keys (t ++ [c]) = keys t ++ [key c] := by simp [keys]
-    rw [e]
-    refine List.nodup_append.mpr ⟨h, by simp, ?_⟩
-    intro a ha b hb
-    have hb' : b = key c := by simpa using hb
-    subst hb'
-    intro e; subst e; exact hnot ha
+    by_cases hc : idless c = true
+    · have : idKeys (t ++ [c]) = idKeys t := by simp [idKeys, List.filter_append, List.filter_cons, hc]
+      rw [this]; exact h
+    · have hcne : c.id ≠ .absent := by simpa [idless] using hc
+      have hnot : key c ∉ idKeys t := by
+        intro hm
+        apply hh
+        rw [any_same_iff]
+        refine ⟨hcne, ?_⟩
+        simp only [idKeys, List.mem_map, List.mem_filter] at hm
+        obtain ⟨x, ⟨hx, _⟩, hxe⟩ := hm
+        exact List.mem_map.mpr ⟨x, hx, hxe⟩
+      have e : idKeys (t ++ [c]) = idKeys t ++ [key c] := by
+        simp [idKeys, List.filter_append, List.filter_cons, hc]
+      rw [e]
+      refine List.nodup_append.mpr ⟨h, by simp, ?_⟩
+      intro a ha b hb
+      have hb' : b = key c := by simpa using hb
+      subst hb'
+      intro e; subst e; exact hnot ha
 
-theorem nodup_keys_addAll (s t : List Comp) (h : (keys t).Nodup) : (keys (addAll s t)).Nodup := by
+theorem nodup_idKeys_addAll (s t : List Comp) (h : (idKeys t).Nodup) : (idKeys (addAll s t)).Nodup := by
   unfold addAll
   induction s generalizing t with
   | nil => simpa
-  | cons c s ih => exact ih _ (nodup_keys_addOne t c h)
+  | cons c s ih => exact ih _ (nodup_idKeys_addOne t c h)
 
 end NmlVerif.Include
 
@@ -144,74 +294,88 @@ namespace NmlVerif.Include
 
 /-- the fold of the include loop never runs out of fuel and only grows the marked set, provided the
     recursive reader has that property for every strictly smaller measure -/
-theorem fold_ok (fs : FS) (cwd base : Path) (U : List Path) (rec : Path → List Path → Res) (n : Nat)
-    (hrec : ∀ p al, unv U al < n → (rec p al).isOut = false ∧ ∀ al' d, rec p al = .ok al' d → ∀ q ∈ al, q ∈ al')
-    (hleaf : 0 < n → ∀ p, kindOf p = .h5 → (rec p []).isOut = false) :
+theorem fold_ok (sh : Bool) (fs : FS) (cwd base : Path) (U : List Path) (rec : Path → List Path → Res) (n : Nat)
+    (hrec : ∀ p al, unv U al < n → (rec p al).isOut = false ∧ ∀ al' l d, rec p al = .ok al' l d → ∀ q ∈ al, q ∈ al')
+    (hleaf : sh = false → 0 < n → ∀ p, kindOf p = .h5 → (rec p []).isOut = false) :
     ∀ (hs : List (List String)), (∀ h ∈ hs, resolveHref fs cwd base h ∈ U) →
-      ∀ (a : List Path) (d : List Comp), unv U a ≤ n →
-      (hs.foldl (step fs cwd base rec) (.ok a d)).isOut = false ∧
-      ∀ al' doc, hs.foldl (step fs cwd base rec) (.ok a d) = .ok al' doc → ∀ q ∈ a, q ∈ al'
-  | [], _, a, d, _ => ⟨rfl, fun al' doc h => by simp only [List.foldl_nil] at h; cases h; exact fun q hq => hq⟩
-  | h :: hs, hU, a, d, hn => by
+      ∀ (a l : List Path) (d : List Comp), unv U a ≤ n →
+      (hs.foldl (step sh fs cwd base rec) (.ok a l d)).isOut = false ∧
+      ∀ al' l' doc, hs.foldl (step sh fs cwd base rec) (.ok a l d) = .ok al' l' doc → ∀ q ∈ a, q ∈ al'
+  | [], _, a, l, d, _ =>
+    ⟨rfl, fun al' l' doc h => by simp only [List.foldl_nil] at h; cases h; exact fun q hq => hq⟩
+  | h :: hs, hU, a, l, d, hn => by
     have hiU : resolveHref fs cwd base h ∈ U := hU h (by simp)
     have hU' : ∀ j ∈ hs, resolveHref fs cwd base j ∈ U := fun j hj => hU j (by simp [hj])
     simp only [List.foldl_cons]
     generalize hloc : resolveHref fs cwd base h = loc at hiU
+    have hbad : ∀ r : Res, (∀ x y z, r ≠ .ok x y z) → r.isOut = false →
+        step sh fs cwd base rec (.ok a l d) h = r →
+        (hs.foldl (step sh fs cwd base rec) (step sh fs cwd base rec (.ok a l d) h)).isOut = false ∧
+        ∀ al' l' doc, hs.foldl (step sh fs cwd base rec) (step sh fs cwd base rec (.ok a l d) h) = .ok al' l' doc →
+          ∀ q ∈ a, q ∈ al' := by
+      intro r hr ho hst
+      rw [hst, fold_nonok _ _ _ _ _ _ hr]
+      exact ⟨ho, fun al' l' doc hh => absurd hh (hr _ _ _)⟩
     by_cases hia : loc ∈ a
-    · have : step fs cwd base rec (.ok a d) h = .ok a d := by simp [step, hloc, hia]
+    · have : step sh fs cwd base rec (.ok a l d) h = .ok a l d := by simp [step, hloc, hia]
       rw [this]
-      exact fold_ok fs cwd base U rec n hrec hleaf hs hU' a d hn
+      exact fold_ok sh fs cwd base U rec n hrec hleaf hs hU' a l d hn
     · have hlt : unv U (loc :: a) < n := by have := unv_cons_lt U a loc hiU hia; omega
       have hnpos : 0 < n := by omega
-      cases hk : kindOf loc with
-      | other =>
-        have : step fs cwd base rec (.ok a d) h = .badExt := by simp [step, hloc, hia, hk]
-        rw [this, fold_nonok _ _ _ _ _ (by intro _ _ hh; cases hh)]
-        exact ⟨rfl, fun al' doc hh => by cases hh⟩
-      | h5 =>
-        have hout := hleaf hnpos loc hk
-        cases hv : rec loc [] with
-        | outOfFuel => simp [hv, Res.isOut] at hout
-        | missing =>
-          have : step fs cwd base rec (.ok a d) h = .missing := by simp [step, hloc, hia, hk, hv]
-          rw [this, fold_nonok _ _ _ _ _ (by intro _ _ hh; cases hh)]
-          exact ⟨rfl, fun al' doc hh => by cases hh⟩
-        | badExt =>
-          have : step fs cwd base rec (.ok a d) h = .badExt := by simp [step, hloc, hia, hk, hv]
-          rw [this, fold_nonok _ _ _ _ _ (by intro _ _ hh; cases hh)]
-          exact ⟨rfl, fun al' doc hh => by cases hh⟩
-        | ok a' sub =>
-          have : step fs cwd base rec (.ok a d) h = .ok (loc :: a) (addAll sub d) := by
-            simp [step, hloc, hia, hk, hv]
-          rw [this]
-          have hn' : unv U (loc :: a) ≤ n := by omega
-          have ⟨h1, h2⟩ := fold_ok fs cwd base U rec n hrec hleaf hs hU' (loc :: a) (addAll sub d) hn'
-          exact ⟨h1, fun al' doc hh q hq => h2 al' doc hh q (by simp [hq])⟩
-      | xml =>
+      -- the "mark, then read with the shared list" case (XML includes; HDF5 includes when repaired)
+      have shared : (∀ r, rec loc (loc :: a) = r →
+            step sh fs cwd base rec (.ok a l d) h =
+              match r with | .ok al' sl sub => .ok al' (l ++ sl) (addAll sub d) | r => r) →
+          (hs.foldl (step sh fs cwd base rec) (step sh fs cwd base rec (.ok a l d) h)).isOut = false ∧
+          ∀ al' l' doc, hs.foldl (step sh fs cwd base rec) (step sh fs cwd base rec (.ok a l d) h) = .ok al' l' doc →
+            ∀ q ∈ a, q ∈ al' := by
+        intro hstep
         have ⟨hout, hmono⟩ := hrec loc (loc :: a) hlt
         cases hv : rec loc (loc :: a) with
         | outOfFuel => simp [hv, Res.isOut] at hout
-        | missing =>
-          have : step fs cwd base rec (.ok a d) h = .missing := by simp [step, hloc, hia, hk, hv]
-          rw [this, fold_nonok _ _ _ _ _ (by intro _ _ hh; cases hh)]
-          exact ⟨rfl, fun al' doc hh => by cases hh⟩
-        | badExt =>
-          have : step fs cwd base rec (.ok a d) h = .badExt := by simp [step, hloc, hia, hk, hv]
-          rw [this, fold_nonok _ _ _ _ _ (by intro _ _ hh; cases hh)]
-          exact ⟨rfl, fun al' doc hh => by cases hh⟩
-        | ok a' sub =>
-          have : step fs cwd base rec (.ok a d) h = .ok a' (addAll sub d) := by
-            simp [step, hloc, hia, hk, hv]
+        | missing => exact hbad .missing (by intro _ _ _ hh; cases hh) rfl (by rw [hstep _ hv])
+        | badExt => exact hbad .badExt (by intro _ _ _ hh; cases hh) rfl (by rw [hstep _ hv])
+        | ok a' sl sub =>
+          have : step sh fs cwd base rec (.ok a l d) h = .ok a' (l ++ sl) (addAll sub d) := by rw [hstep _ hv]
           rw [this]
-          have hsub : ∀ q ∈ a, q ∈ a' := fun q hq => hmono a' sub hv q (by simp [hq])
+          have hsub : ∀ q ∈ a, q ∈ a' := fun q hq => hmono a' sl sub hv q (by simp [hq])
           have hn' : unv U a' ≤ n := Nat.le_trans (unv_mono U a a' hsub) hn
-          have ⟨h1, h2⟩ := fold_ok fs cwd base U rec n hrec hleaf hs hU' a' (addAll sub d) hn'
-          exact ⟨h1, fun al' doc hh q hq => h2 al' doc hh q (hsub q hq)⟩
+          have ⟨h1, h2⟩ := fold_ok sh fs cwd base U rec n hrec hleaf hs hU' a' (l ++ sl) (addAll sub d) hn'
+          exact ⟨h1, fun al' l' doc hh q hq => h2 al' l' doc hh q (hsub q hq)⟩
+      cases hk : kindOf loc with
+      | other =>
+        exact hbad .badExt (by intro _ _ _ hh; cases hh) rfl (by simp [step, hloc, hia, hk])
+      | xml =>
+        apply shared
+        intro r hr
+        simp only [step, hloc, hia, hk, if_false, hr]
+        cases r <;> rfl
+      | h5 =>
+        cases sh with
+        | true =>
+          apply shared
+          intro r hr
+          simp only [step, hloc, hia, hk, if_false, if_true, hr]
+          cases r <;> rfl
+        | false =>
+          have hout := hleaf rfl hnpos loc hk
+          cases hv : rec loc [] with
+          | outOfFuel => simp [hv, Res.isOut] at hout
+          | missing => exact hbad .missing (by intro _ _ _ hh; cases hh) rfl (by simp [step, hloc, hia, hk, hv])
+          | badExt => exact hbad .badExt (by intro _ _ _ hh; cases hh) rfl (by simp [step, hloc, hia, hk, hv])
+          | ok a' sl sub =>
+            have : step false fs cwd base rec (.ok a l d) h = .ok (loc :: a) (l ++ sl) (addAll sub d) := by
+              simp [step, hloc, hia, hk, hv]
+            rw [this]
+            have hn' : unv U (loc :: a) ≤ n := by omega
+            have ⟨h1, h2⟩ := fold_ok false fs cwd base U rec n hrec hleaf hs hU' (loc :: a) (l ++ sl) (addAll sub d) hn'
+            exact ⟨h1, fun al' l' doc hh q hq => h2 al' l' doc hh q (by simp [hq])⟩
 
-theorem visit_terminates (fs : FS) (cwd : Path) (U : List Path) (hclosed : ClosedIn fs cwd U) (h5 : H5Leaf fs) :
+theorem visit_terminates (sh : Bool) (fs : FS) (cwd : Path) (U : List Path) (hclosed : ClosedIn fs cwd U)
+    (h5 : sh = false → H5Leaf fs) :
     ∀ f p al, unv U al < f →
-      (visit fs cwd f p al).isOut = false ∧
-      ∀ al' doc, visit fs cwd f p al = .ok al' doc → ∀ q ∈ al, q ∈ al' := by
+      (visit sh fs cwd f p al).isOut = false ∧
+      ∀ al' l doc, visit sh fs cwd f p al = .ok al' l doc → ∀ q ∈ al, q ∈ al' := by
   intro f
   induction f with
   | zero => intro p al h; omega
@@ -219,22 +383,78 @@ theorem visit_terminates (fs : FS) (cwd : Path) (U : List Path) (hclosed : Close
     intro p al hf
     unfold visit
     cases hfile : fs p with
-    | none => exact ⟨rfl, fun al' doc h => by cases h⟩
+    | none => exact ⟨rfl, fun al' l doc h => by cases h⟩
     | some file =>
-      refine fold_ok fs cwd p.dropLast U (visit fs cwd f) f ih ?_ file.hrefs (hclosed p file hfile) al file.comps (by omega)
-      intro hpos q hk
+      refine fold_ok sh fs cwd p.dropLast U (visit sh fs cwd f) f ih ?_ file.hrefs (hclosed p file hfile) al [p] file.comps (by omega)
+      intro hsh hpos q hk
       obtain ⟨g, rfl⟩ : ∃ g, f = g + 1 := ⟨f - 1, by omega⟩
       cases hq : fs q with
       | none => simp [visit, hq, Res.isOut]
       | some qf =>
-        rw [visit_leaf fs cwd g q qf [] hq (h5 q qf hq hk)]
+        rw [visit_leaf sh fs cwd g q qf [] hq (h5 hsh q qf hq hk)]
         rfl
 
 end NmlVerif.Include
 
 namespace NmlVerif.Include
 
-/-! ### what an `ok` result contains -/
+/-! ### the document is determined by the read log (no hypothesis on the graph) -/
+
+def compsOf (fs : FS) (q : Path) : List Comp :=
+  match fs q with
+  | some f => f.comps
+  | none => []
+
+/-- the components of the files `l`, file after file, in document order -/
+def compsOfAll (fs : FS) (l : List Path) : List Comp := l.flatMap (compsOf fs)
+
+/-- what a reader returns: a log that starts with the file itself, and the left-to-right merge of the
+    files read after it into the file's own components -/
+def DocByLog (fs : FS) (p : Path) (log : List Path) (doc : List Comp) : Prop :=
+  ∃ file rest, fs p = some file ∧ log = p :: rest ∧ doc = addAll (compsOfAll fs rest) file.comps
+
+theorem fold_doc (sh : Bool) (fs : FS) (cwd base : Path) (rec : Path → List Path → Res)
+    (hrec : ∀ p al al' sl sub, rec p al = .ok al' sl sub → DocByLog fs p sl sub) :
+    ∀ (hs : List (List String)) (a l : List Path) (d : List Comp) (al' l' : List Path) (doc : List Comp),
+      hs.foldl (step sh fs cwd base rec) (.ok a l d) = .ok al' l' doc →
+      ∃ new, l' = l ++ new ∧ doc = addAll (compsOfAll fs new) d
+  | [], a, l, d, al', l', doc, h => by
+    simp only [List.foldl_nil] at h
+    cases h
+    exact ⟨[], by simp, by simp [compsOfAll, addAll]⟩
+  | h :: hs, a, l, d, al', l', doc, hfold => by
+    obtain ⟨a1, l1, d1, hst, hrest⟩ := fold_cons_ok_inv hfold
+    obtain ⟨n2, hl2, hd2⟩ := fold_doc sh fs cwd base rec hrec hs a1 l1 d1 al' l' doc hrest
+    rcases step_ok_inv hst with ⟨_, _, rfl, rfl⟩ | ⟨_, a', sl, sub, rfl, rfl, hcase⟩
+    · exact ⟨n2, hl2, hd2⟩
+    · have D : DocByLog fs (resolveHref fs cwd base h) sl sub := by
+        rcases hcase with ⟨hv, _, _⟩ | ⟨hv, _, _, _⟩
+        · exact hrec _ _ _ _ _ hv
+        · exact hrec _ _ _ _ _ hv
+      obtain ⟨file, rest, hfile, rfl, rfl⟩ := D
+      refine ⟨(resolveHref fs cwd base h :: rest) ++ n2, by rw [hl2]; simp, ?_⟩
+      rw [hd2, addAll_assoc]
+      have e : compsOfAll fs ((resolveHref fs cwd base h :: rest) ++ n2) =
+          (file.comps ++ compsOfAll fs rest) ++ compsOfAll fs n2 := by
+        simp [compsOfAll, compsOf, hfile]
+      rw [e, addAll_append, addAll_append]
+
+theorem visit_doc (sh : Bool) (fs : FS) (cwd : Path) :
+    ∀ f p al al' l doc, visit sh fs cwd f p al = .ok al' l doc → DocByLog fs p l doc := by
+  intro f
+  induction f with
+  | zero => intro p al al' l doc h; simp [visit] at h
+  | succ f ih =>
+    intro p al al' l doc h
+    unfold visit at h
+    cases hfile : fs p with
+    | none => simp [hfile] at h
+    | some file =>
+      simp only [hfile] at h
+      obtain ⟨new, hl, hd⟩ := fold_doc sh fs cwd p.dropLast (visit sh fs cwd f) ih file.hrefs al [p] file.comps al' l doc h
+      exact ⟨file, new, hfile, by simpa using hl, hd⟩
+
+/-! ### which files are read (under `sh = true`, or `H5Leaf`): the log and the marks -/
 
 inductive Reach (fs : FS) (cwd : Path) : Path → Path → Prop where
   | refl (p : Path) : Reach fs cwd p p
@@ -248,53 +468,302 @@ theorem Reach.head {fs : FS} {cwd : Path} {p : Path} {file : File} {h : List Str
   | refl => exact Reach.step (Reach.refl p) hp hh
   | step _ hq hh' ih => exact Reach.step ih hq hh'
 
-def fileKeys (fs : FS) (q : Path) : List (String × String) :=
-  match fs q with
-  | some f => keys f.comps
-  | none => []
-
 def incs (fs : FS) (cwd : Path) (q : Path) : List Path :=
   match fs q with
   | some f => f.hrefs.map (resolveHref fs cwd q.dropLast)
   | none => []
 
-def NewIn (a al' : List Path) (q : Path) : Prop := q ∈ al' ∧ q ∉ a
+/-- the files `new` were read on top of the marks `a`: they are the new marks (latest first), pairwise
+    different and not marked before -/
+structure Fresh (a al' new : List Path) : Prop where
+  marks : al' = new.reverse ++ a
+  nodup : new.Nodup
+  notin : ∀ q ∈ new, q ∉ a
 
-structure VSpec (fs : FS) (cwd p : Path) (al al' : List Path) (doc : List Comp) : Prop where
-  mono : ∀ q ∈ al, q ∈ al'
-  reach : ∀ q, NewIn al al' q → Reach fs cwd p q
-  keysIff : ∀ k, k ∈ keys doc ↔ k ∈ fileKeys fs p ∨ ∃ q, NewIn al al' q ∧ k ∈ fileKeys fs q
+theorem Fresh.mono {a al' new : List Path} (F : Fresh a al' new) : ∀ q ∈ a, q ∈ al' := by
+  intro q hq; rw [F.marks]; simp [hq]
+
+theorem Fresh.mem {a al' new : List Path} (F : Fresh a al' new) (q : Path) : q ∈ al' ↔ q ∈ new ∨ q ∈ a := by
+  rw [F.marks]; simp
+
+structure VSpec (fs : FS) (cwd p : Path) (al al' log : List Path) : Prop where
+  shape : ∃ new, log = p :: new ∧ Fresh al al' new
+  reach : ∀ q ∈ log, Reach fs cwd p q
   closedP : ∀ i ∈ incs fs cwd p, i ∈ al'
-  closedN : ∀ q, NewIn al al' q → ∀ i ∈ incs fs cwd q, i ∈ al'
+  closedN : ∀ q ∈ log.tail, ∀ i ∈ incs fs cwd q, i ∈ al'
 
-structure FSpec (fs : FS) (cwd base : Path) (hs : List (List String)) (a al' : List Path) (d doc : List Comp) : Prop where
-  mono : ∀ q ∈ a, q ∈ al'
-  reach : ∀ q, NewIn a al' q → ∃ h ∈ hs, Reach fs cwd (resolveHref fs cwd base h) q
-  keysIff : ∀ k, k ∈ keys doc ↔ k ∈ keys d ∨ ∃ q, NewIn a al' q ∧ k ∈ fileKeys fs q
+structure FSpec (fs : FS) (cwd base : Path) (hs : List (List String)) (a al' new : List Path) : Prop where
+  fresh : Fresh a al' new
+  reach : ∀ q ∈ new, ∃ h ∈ hs, Reach fs cwd (resolveHref fs cwd base h) q
   closedH : ∀ h ∈ hs, resolveHref fs cwd base h ∈ al'
-  closedN : ∀ q, NewIn a al' q → ∀ i ∈ incs fs cwd q, i ∈ al'
+  closedN : ∀ q ∈ new, ∀ i ∈ incs fs cwd q, i ∈ al'
 
-theorem fold_spec (fs : FS) (cwd base : Path) (rec : Path → List Path → Res)
-    (hrec : ∀ p al al' sub, rec p al = .ok al' sub → VSpec fs cwd p al al' sub)
-    (hleaf : ∀ p file al al' sub, fs p = some file → file.hrefs = [] → rec p al = .ok al' sub →
-        al' = al ∧ sub = file.comps)
-    (hsome : ∀ p al al' sub, rec p al = .ok al' sub → ∃ file, fs p = some file)
-    (h5 : H5Leaf fs) :
-    ∀ (hs : List (List String)) (a : List Path) (d : List Comp) (al' : List Path) (doc : List Comp),
-      hs.foldl (step fs cwd base rec) (.ok a d) = .ok al' doc → FSpec fs cwd base hs a al' d doc
-  | [], a, d, al', doc, h => by
+theorem fold_spec (sh : Bool) (fs : FS) (cwd base : Path) (rec : Path → List Path → Res)
+    (hrec : ∀ p al al' sl sub, rec p al = .ok al' sl sub → VSpec fs cwd p al al' sl)
+    (hleaf : ∀ p file al al' sl sub, fs p = some file → file.hrefs = [] → rec p al = .ok al' sl sub →
+        al' = al ∧ sl = [p])
+    (hsome : ∀ p al al' sl sub, rec p al = .ok al' sl sub → ∃ file, fs p = some file)
+    (h5 : sh = false → H5Leaf fs) :
+    ∀ (hs : List (List String)) (a l : List Path) (d : List Comp) (al' l' : List Path) (doc : List Comp),
+      hs.foldl (step sh fs cwd base rec) (.ok a l d) = .ok al' l' doc →
+      ∃ new, l' = l ++ new ∧ FSpec fs cwd base hs a al' new
+  | [], a, l, d, al', l', doc, h => by
     simp only [List.foldl_nil] at h
     cases h
-    exact ⟨fun q hq => hq, fun q hq => absurd hq.1 hq.2, fun k => ⟨Or.inl, fun hh => hh.elim id (fun ⟨q, hq, _⟩ => absurd hq.1 hq.2)⟩,
-      by simp, fun q hq => absurd hq.1 hq.2⟩
-  | h :: hs, a, d, al', doc, hfold => by
-    simp only [List.foldl_cons] at hfold
-    generalize hloc : resolveHref fs cwd base h = loc
-    by_cases hia : loc ∈ a
-    · have hst : step fs cwd base rec (.ok a d) h = .ok a d := by simp [step, hloc, hia]
-      rw [hst] at hfold
-      have S := fold_spec fs cwd base rec hrec hleaf hsome h5 hs a d al' doc hfold
-      refine ⟨S.mono, ?_, S.keysIff, ?_, S.closedN⟩
+    exact ⟨[], by simp, ⟨by simp, List.nodup_nil, by simp⟩, by simp, by simp, by simp⟩
+  | h :: hs, a, l, d, al', l', doc, hfold => by
+    obtain ⟨a1, l1, d1, hst, hrest⟩ := fold_cons_ok_inv hfold
+    obtain ⟨n2, hl2, S⟩ := fold_spec sh fs cwd base rec hrec hleaf hsome h5 hs a1 l1 d1 al' l' doc hrest
+    generalize hloc : resolveHref fs cwd base h = loc at *
+    rcases step_ok_inv hst with ⟨hia, rfl, rfl, rfl⟩ | ⟨hia, a', sl, sub, rfl, rfl, hcase⟩
+    · rw [hloc] at hia
+      refine ⟨n2, hl2, S.fresh, ?_, ?_, S.closedN⟩
+      · intro q hq
+        obtain ⟨h', hh', r⟩ := S.reach q hq
+        exact ⟨h', by simp [hh'], r⟩
+      · intro h' hh'
+        rcases List.mem_cons.mp hh' with e | e
+        · subst e; rw [hloc]; exact S.fresh.mono _ hia
+        · exact S.closedH h' e
+    · rw [hloc] at hia hcase
+      -- in both remaining cases: `sl = loc :: n1`, the marks after the step are `n1.reverse ++ loc :: a`
+      have key : ∃ n1, sl = loc :: n1 ∧ Fresh (loc :: a) a1 n1 ∧ (∀ q ∈ sl, Reach fs cwd loc q) ∧
+          (∀ i ∈ incs fs cwd loc, i ∈ a1) ∧ (∀ q ∈ n1, ∀ i ∈ incs fs cwd q, i ∈ a1) := by
+        rcases hcase with ⟨hv, rfl, _⟩ | ⟨hv, rfl, hk, hsh⟩
+        · have V := hrec _ _ _ _ _ hv
+          obtain ⟨n1, rfl, F⟩ := V.shape
+          exact ⟨n1, rfl, F, V.reach, V.closedP, fun q hq => V.closedN q (by simpa using hq)⟩
+        · obtain ⟨file, hfile⟩ := hsome _ _ _ _ _ hv
+          have hl := h5 hsh loc file hfile hk
+          obtain ⟨_, rfl⟩ := hleaf loc file [] a' sl sub hfile hl hv
+          refine ⟨[], rfl, ⟨by simp, List.nodup_nil, by simp⟩, ?_, ?_, by simp⟩
+          · intro q hq; have : q = loc := by simpa using hq
+            subst this; exact Reach.refl _
+          · simp [incs, hfile, hl]
+      obtain ⟨n1, rfl, F1, hreach1, hcP, hcN⟩ := key
+      have hmem1 : ∀ q, q ∈ a1 ↔ q ∈ n1 ∨ q = loc ∨ q ∈ a := by
+        intro q; rw [F1.mem]; simp
+      have F2 := S.fresh
+      refine ⟨(loc :: n1) ++ n2, by rw [hl2]; simp, ⟨?_, ?_, ?_⟩, ?_, ?_, ?_⟩
+      · rw [F2.marks, F1.marks]; simp
+      · have h1 : loc ∉ n1 := fun hm => F1.notin loc hm (by simp)
+        have h2 : loc ∉ n2 := fun hm => F2.notin loc hm ((hmem1 loc).mpr (Or.inr (Or.inl rfl)))
+        have h3 : ∀ q ∈ n1, q ∉ n2 := fun q hq hm => F2.notin q hm ((hmem1 q).mpr (Or.inl hq))
+        simp only [List.cons_append, List.nodup_cons, List.mem_append, not_or]
+        refine ⟨⟨h1, h2⟩, List.nodup_append.mpr ⟨F1.nodup, F2.nodup, ?_⟩⟩
+        intro x hx y hy e; subst e; exact h3 x hx hy
+      · intro q hq
+        simp only [List.cons_append, List.mem_cons, List.mem_append] at hq
+        rcases hq with e | e | e
+        · subst e; exact hia
+        · exact fun hqa => F1.notin q e (by simp [hqa])
+        · exact fun hqa => F2.notin q e ((hmem1 q).mpr (Or.inr (Or.inr hqa)))
+      · intro q hq
+        simp only [List.cons_append, List.mem_cons, List.mem_append] at hq
+        rcases hq with e | e | e
+        · subst e; exact ⟨h, by simp, by rw [hloc]; exact Reach.refl _⟩
+        · exact ⟨h, by simp, by rw [hloc]; exact hreach1 q (by simp [e])⟩
+        · obtain ⟨h', hh', r⟩ := S.reach q e
+          exact ⟨h', by simp [hh'], r⟩
+      · intro h' hh'
+        rcases List.mem_cons.mp hh' with e | e
+        · subst e; rw [hloc]; exact F2.mono _ ((hmem1 loc).mpr (Or.inr (Or.inl rfl)))
+        · exact S.closedH h' e
+      · intro q hq i hi
+        simp only [List.cons_append, List.mem_cons, List.mem_append] at hq
+        rcases hq with e | e | e
+        · subst e; exact F2.mono _ (hcP i hi)
+        · exact F2.mono _ (hcN q e i hi)
+        · exact S.closedN q e i hi
+
+theorem visit_spec (sh : Bool) (fs : FS) (cwd : Path) (h5 : sh = false → H5Leaf fs) :
+    ∀ f p al al' l doc, visit sh fs cwd f p al = .ok al' l doc → VSpec fs cwd p al al' l := by
+  intro f
+  induction f with
+  | zero => intro p al al' l doc h; simp [visit] at h
+  | succ f ih =>
+    intro p al al' l doc h
+    unfold visit at h
+    cases hfile : fs p with
+    | none => simp [hfile] at h
+    | some file =>
+      simp only [hfile] at h
+      have hleaf : ∀ q qf a a' sl sub, fs q = some qf → qf.hrefs = [] → visit sh fs cwd f q a = .ok a' sl sub →
+          a' = a ∧ sl = [q] := by
+        intro q qf a a' sl sub hq hl hv
+        cases f with
+        | zero => simp [visit] at hv
+        | succ g =>
+          rw [visit_leaf sh fs cwd g q qf a hq hl] at hv
+          cases hv; exact ⟨rfl, rfl⟩
+      have hsome : ∀ q a a' sl sub, visit sh fs cwd f q a = .ok a' sl sub → ∃ qf, fs q = some qf := by
+        intro q a a' sl sub hv
+        cases f with
+        | zero => simp [visit] at hv
+        | succ g =>
+          cases hq : fs q with
+          | none => simp [visit, hq] at hv
+          | some qf => exact ⟨qf, rfl⟩
+      obtain ⟨new, hl, S⟩ := fold_spec sh fs cwd p.dropLast (visit sh fs cwd f) ih hleaf hsome h5 file.hrefs al [p] file.comps al' l doc h
+      have hl' : l = p :: new := by simpa using hl
+      subst hl'
+      refine ⟨⟨new, rfl, S.fresh⟩, ?_, ?_, ?_⟩
+      · intro q hq
+        rcases List.mem_cons.mp hq with e | e
+        · subst e; exact Reach.refl _
+        · obtain ⟨h', hh', r⟩ := S.reach q e
+          exact Reach.head hfile hh' r
+      · intro i hi
+        simp only [incs, hfile, List.mem_map] at hi
+        obtain ⟨h', hh', rfl⟩ := hi
+        exact S.closedH h' hh'
+      · intro q hq; exact S.closedN q (by simpa using hq)
+
+end NmlVerif.Include
+
+namespace NmlVerif.Include
+
+/-! ### the order of the log: depth-first preorder of the include graph
+
+`dfsList succ fuel todo seen` is the textbook recursive depth-first traversal of a graph given by its
+successor function: the targets `todo` are visited left to right, a target in `seen` is skipped, a new one is
+marked, emitted, and its successors are traversed before the next target.  It returns the marks and the
+preorder.  It knows nothing about files, documents or merging. -/
+
+def dfsStep (succ : Path → List Path) (rec : List Path → List Path → List Path × List Path)
+    (acc : List Path × List Path) (t : Path) : List Path × List Path :=
+  if t ∈ acc.1 then acc else
+    let r := rec (succ t) (t :: acc.1)
+    (r.1, acc.2 ++ t :: r.2)
+
+def dfsList (succ : Path → List Path) : Nat → List Path → List Path → List Path × List Path
+  | 0, _, seen => (seen, [])
+  | f+1, todo, seen => todo.foldl (dfsStep succ (dfsList succ f)) (seen, [])
+
+theorem fold_dfs (sh : Bool) (fs : FS) (cwd base : Path) (rec : Path → List Path → Res)
+    (drec : List Path → List Path → List Path × List Path)
+    (hrec : ∀ p al al' sl sub, rec p al = .ok al' sl sub →
+        ∃ rest, sl = p :: rest ∧ drec (incs fs cwd p) al = (al', rest))
+    (hleaf : ∀ p file al al' sl sub, fs p = some file → file.hrefs = [] → rec p al = .ok al' sl sub → sl = [p])
+    (hdleaf : ∀ seen, drec [] seen = (seen, []))
+    (hsome : ∀ p al al' sl sub, rec p al = .ok al' sl sub → ∃ file, fs p = some file)
+    (h5 : sh = false → H5Leaf fs) :
+    ∀ (hs : List (List String)) (a l : List Path) (d : List Comp) (al' l' : List Path) (doc : List Comp),
+      hs.foldl (step sh fs cwd base rec) (.ok a l d) = .ok al' l' doc →
+      ∃ new, l' = l ++ new ∧
+        ∀ l0, (hs.map (resolveHref fs cwd base)).foldl (dfsStep (incs fs cwd) drec) (a, l0) = (al', l0 ++ new)
+  | [], a, l, d, al', l', doc, h => by
+    simp only [List.foldl_nil] at h
+    cases h
+    exact ⟨[], by simp, by simp⟩
+  | h :: hs, a, l, d, al', l', doc, hfold => by
+    obtain ⟨a1, l1, d1, hst, hrest⟩ := fold_cons_ok_inv hfold
+    obtain ⟨n2, hl2, hd2⟩ := fold_dfs sh fs cwd base rec drec hrec hleaf hdleaf hsome h5 hs a1 l1 d1 al' l' doc hrest
+    generalize hloc : resolveHref fs cwd base h = loc at *
+    rcases step_ok_inv hst with ⟨hia, rfl, rfl, rfl⟩ | ⟨hia, a', sl, sub, rfl, rfl, hcase⟩
+    · rw [hloc] at hia
+      refine ⟨n2, hl2, ?_⟩
+      intro l0
+      simp only [List.map_cons, List.foldl_cons, hloc]
+      have : dfsStep (incs fs cwd) drec (a1, l0) loc = (a1, l0) := by simp [dfsStep, hia]
+      rw [this]; exact hd2 l0
+    · rw [hloc] at hia hcase
+      have key : ∃ rest, sl = loc :: rest ∧ drec (incs fs cwd loc) (loc :: a) = (a1, rest) := by
+        rcases hcase with ⟨hv, rfl, _⟩ | ⟨hv, rfl, hk, hsh⟩
+        · exact hrec _ _ _ _ _ hv
+        · obtain ⟨file, hfile⟩ := hsome _ _ _ _ _ hv
+          have hl := h5 hsh loc file hfile hk
+          have := hleaf loc file [] a' sl sub hfile hl hv
+          subst this
+          refine ⟨[], rfl, ?_⟩
+          have : incs fs cwd loc = [] := by simp [incs, hfile, hl]
+          rw [this, hdleaf]
+      obtain ⟨rest, rfl, hdr⟩ := key
+      refine ⟨(loc :: rest) ++ n2, by rw [hl2]; simp, ?_⟩
+      intro l0
+      simp only [List.map_cons, List.foldl_cons, hloc]
+      have : dfsStep (incs fs cwd) drec (a, l0) loc = (a1, l0 ++ loc :: rest) := by
+        simp [dfsStep, hia, hdr]
+      rw [this, hd2]
+      simp
+
+theorem dfsList_nil (succ : Path → List Path) (f : Nat) (seen : List Path) : dfsList succ f [] seen = (seen, []) := by
+  cases f <;> rfl
+
+theorem visit_dfs (sh : Bool) (fs : FS) (cwd : Path) (h5 : sh = false → H5Leaf fs) :
+    ∀ f p al al' l doc, visit sh fs cwd f p al = .ok al' l doc →
+      ∃ rest, l = p :: rest ∧ dfsList (incs fs cwd) f (incs fs cwd p) al = (al', rest) := by
+  intro f
+  induction f with
+  | zero => intro p al al' l doc h; simp [visit] at h
+  | succ f ih =>
+    intro p al al' l doc h
+    unfold visit at h
+    cases hfile : fs p with
+    | none => simp [hfile] at h
+    | some file =>
+      simp only [hfile] at h
+      have hleaf : ∀ q qf a a' sl sub, fs q = some qf → qf.hrefs = [] → visit sh fs cwd f q a = .ok a' sl sub →
+          sl = [q] := by
+        intro q qf a a' sl sub hq hl hv
+        cases f with
+        | zero => simp [visit] at hv
+        | succ g =>
+          rw [visit_leaf sh fs cwd g q qf a hq hl] at hv
+          cases hv; rfl
+      have hsome : ∀ q a a' sl sub, visit sh fs cwd f q a = .ok a' sl sub → ∃ qf, fs q = some qf := by
+        intro q a a' sl sub hv
+        cases f with
+        | zero => simp [visit] at hv
+        | succ g =>
+          cases hq : fs q with
+          | none => simp [visit, hq] at hv
+          | some qf => exact ⟨qf, rfl⟩
+      obtain ⟨new, hl, hd⟩ := fold_dfs sh fs cwd p.dropLast (visit sh fs cwd f) (dfsList (incs fs cwd) f) ih hleaf
+        (dfsList_nil _ f) hsome h5 file.hrefs al [p] file.comps al' l doc h
+      refine ⟨new, by simpa using hl, ?_⟩
+      have := hd []
+      simpa [dfsList, incs, hfile] using this
+
+end NmlVerif.Include
+
+namespace NmlVerif.Include
+
+/-! ### which files are read — no hypothesis at all (any `sh`, HDF5 files with includes of their own)
+
+The log of a successful read is closed under include links and contains only reachable files, whether or not
+some file was read twice.  Every mark is either one that was given or a file of the log. -/
+
+structure WSpec (fs : FS) (cwd p : Path) (al al' log : List Path) : Prop where
+  head : p ∈ log
+  mono : ∀ q ∈ al, q ∈ al'
+  marks : ∀ q ∈ al', q ∈ al ∨ q ∈ log
+  reach : ∀ q ∈ log, Reach fs cwd p q
+  closed : ∀ q ∈ log, ∀ i ∈ incs fs cwd q, i ∈ log ∨ i ∈ al
+
+structure WFold (fs : FS) (cwd base : Path) (hs : List (List String)) (a al' new : List Path) : Prop where
+  mono : ∀ q ∈ a, q ∈ al'
+  marks : ∀ q ∈ al', q ∈ a ∨ q ∈ new
+  reach : ∀ q ∈ new, ∃ h ∈ hs, Reach fs cwd (resolveHref fs cwd base h) q
+  closedH : ∀ h ∈ hs, resolveHref fs cwd base h ∈ al'
+  closedN : ∀ q ∈ new, ∀ i ∈ incs fs cwd q, i ∈ new ∨ i ∈ a
+
+theorem fold_wspec (sh : Bool) (fs : FS) (cwd base : Path) (rec : Path → List Path → Res)
+    (hrec : ∀ p al al' sl sub, rec p al = .ok al' sl sub → WSpec fs cwd p al al' sl) :
+    ∀ (hs : List (List String)) (a l : List Path) (d : List Comp) (al' l' : List Path) (doc : List Comp),
+      hs.foldl (step sh fs cwd base rec) (.ok a l d) = .ok al' l' doc →
+      ∃ new, l' = l ++ new ∧ WFold fs cwd base hs a al' new
+  | [], a, l, d, al', l', doc, h => by
+    simp only [List.foldl_nil] at h
+    cases h
+    exact ⟨[], by simp, fun q hq => hq, fun q hq => Or.inl hq, by simp, by simp, by simp⟩
+  | h :: hs, a, l, d, al', l', doc, hfold => by
+    obtain ⟨a1, l1, d1, hst, hrest⟩ := fold_cons_ok_inv hfold
+    obtain ⟨n2, hl2, S⟩ := fold_wspec sh fs cwd base rec hrec hs a1 l1 d1 al' l' doc hrest
+    generalize hloc : resolveHref fs cwd base h = loc at *
+    rcases step_ok_inv hst with ⟨hia, rfl, rfl, rfl⟩ | ⟨hia, a', sl, sub, rfl, rfl, hcase⟩
+    · rw [hloc] at hia
+      refine ⟨n2, hl2, S.mono, S.marks, ?_, ?_, S.closedN⟩
       · intro q hq
         obtain ⟨h', hh', r⟩ := S.reach q hq
         exact ⟨h', by simp [hh'], r⟩
@@ -302,166 +771,101 @@ theorem fold_spec (fs : FS) (cwd base : Path) (rec : Path → List Path → Res)
         rcases List.mem_cons.mp hh' with e | e
         · subst e; rw [hloc]; exact S.mono _ hia
         · exact S.closedH h' e
-    · -- a genuinely new include
-      have hne : ∀ r : Res, (∀ x y, r ≠ .ok x y) → hs.foldl (step fs cwd base rec) r ≠ .ok al' doc := by
-        intro r hr; rw [fold_nonok _ _ _ _ _ hr]; exact hr al' doc
-      cases hk : kindOf loc with
-      | other =>
-        have hst : step fs cwd base rec (.ok a d) h = .badExt := by simp [step, hloc, hia, hk]
-        rw [hst] at hfold
-        exact absurd hfold (hne _ (by intro _ _ hh; cases hh))
-      | h5 =>
-        cases hv : rec loc [] with
-        | outOfFuel =>
-          have hst : step fs cwd base rec (.ok a d) h = .outOfFuel := by simp [step, hloc, hia, hk, hv]
-          rw [hst] at hfold
-          exact absurd hfold (hne _ (by intro _ _ hh; cases hh))
-        | missing =>
-          have hst : step fs cwd base rec (.ok a d) h = .missing := by simp [step, hloc, hia, hk, hv]
-          rw [hst] at hfold
-          exact absurd hfold (hne _ (by intro _ _ hh; cases hh))
-        | badExt =>
-          have hst : step fs cwd base rec (.ok a d) h = .badExt := by simp [step, hloc, hia, hk, hv]
-          rw [hst] at hfold
-          exact absurd hfold (hne _ (by intro _ _ hh; cases hh))
-        | ok a1 sub =>
-          have hst : step fs cwd base rec (.ok a d) h = .ok (loc :: a) (addAll sub d) := by
-            simp [step, hloc, hia, hk, hv]
-          rw [hst] at hfold
-          obtain ⟨file, hfile⟩ := hsome loc [] a1 sub hv
-          have hl := h5 loc file hfile hk
-          obtain ⟨-, hsub⟩ := hleaf loc file [] a1 sub hfile hl hv
-          subst hsub
-          have S := fold_spec fs cwd base rec hrec hleaf hsome h5 hs (loc :: a) (addAll file.comps d) al' doc hfold
-          have hlocal : loc ∈ al' := S.mono loc (by simp)
-          have hfk : fileKeys fs loc = keys file.comps := by simp [fileKeys, hfile]
-          have hinc : incs fs cwd loc = [] := by simp [incs, hfile, hl]
-          refine ⟨fun q hq => S.mono q (by simp [hq]), ?_, ?_, ?_, ?_⟩
+    · rw [hloc] at hia hcase
+      -- facts common to both ways of reading `loc`
+      have key : loc ∈ sl ∧ loc ∈ a1 ∧ (∀ q ∈ a, q ∈ a1) ∧ (∀ q ∈ a1, q ∈ a ∨ q ∈ sl) ∧
+          (∀ q ∈ sl, Reach fs cwd loc q) ∧ (∀ q ∈ sl, ∀ i ∈ incs fs cwd q, i ∈ sl ∨ i ∈ a) := by
+        rcases hcase with ⟨hv, rfl, _⟩ | ⟨hv, rfl, _, _⟩
+        · have W := hrec _ _ _ _ _ hv
+          refine ⟨W.head, W.mono loc (by simp), fun q hq => W.mono q (by simp [hq]), ?_, W.reach, ?_⟩
           · intro q hq
-            by_cases hql : q = loc
-            · subst hql; exact ⟨h, by simp, by rw [hloc]; exact Reach.refl _⟩
-            · obtain ⟨h', hh', r⟩ := S.reach q ⟨hq.1, by simp [hql, hq.2]⟩
-              exact ⟨h', by simp [hh'], r⟩
-          · intro k
-            rw [S.keysIff k, mem_keys_addAll]
-            constructor
-            · rintro ((hkd | hks) | ⟨q, hq, hkq⟩)
-              · exact Or.inl hkd
-              · exact Or.inr ⟨loc, ⟨hlocal, hia⟩, by rw [hfk]; exact hks⟩
-              · exact Or.inr ⟨q, ⟨hq.1, fun hqa => hq.2 (by simp [hqa])⟩, hkq⟩
-            · rintro (hkd | ⟨q, hq, hkq⟩)
-              · exact Or.inl (Or.inl hkd)
-              · by_cases hql : q = loc
-                · subst hql; exact Or.inl (Or.inr (by rw [← hfk]; exact hkq))
-                · exact Or.inr ⟨q, ⟨hq.1, by simp [hql, hq.2]⟩, hkq⟩
-          · intro h' hh'
-            rcases List.mem_cons.mp hh' with e | e
-            · subst e; rw [hloc]; exact hlocal
-            · exact S.closedH h' e
+            rcases W.marks q hq with e | e
+            · rcases List.mem_cons.mp e with e' | e'
+              · subst e'; exact Or.inr W.head
+              · exact Or.inl e'
+            · exact Or.inr e
           · intro q hq i hi
-            by_cases hql : q = loc
-            · subst hql; rw [hinc] at hi; cases hi
-            · exact S.closedN q ⟨hq.1, by simp [hql, hq.2]⟩ i hi
-      | xml =>
-        cases hv : rec loc (loc :: a) with
-        | outOfFuel =>
-          have hst : step fs cwd base rec (.ok a d) h = .outOfFuel := by simp [step, hloc, hia, hk, hv]
-          rw [hst] at hfold
-          exact absurd hfold (hne _ (by intro _ _ hh; cases hh))
-        | missing =>
-          have hst : step fs cwd base rec (.ok a d) h = .missing := by simp [step, hloc, hia, hk, hv]
-          rw [hst] at hfold
-          exact absurd hfold (hne _ (by intro _ _ hh; cases hh))
-        | badExt =>
-          have hst : step fs cwd base rec (.ok a d) h = .badExt := by simp [step, hloc, hia, hk, hv]
-          rw [hst] at hfold
-          exact absurd hfold (hne _ (by intro _ _ hh; cases hh))
-        | ok a1 sub =>
-          have hst : step fs cwd base rec (.ok a d) h = .ok a1 (addAll sub d) := by
-            simp [step, hloc, hia, hk, hv]
-          rw [hst] at hfold
-          have V := hrec loc (loc :: a) a1 sub hv
-          have S := fold_spec fs cwd base rec hrec hleaf hsome h5 hs a1 (addAll sub d) al' doc hfold
-          have hloc1 : loc ∈ a1 := V.mono loc (by simp)
-          have hlocal : loc ∈ al' := S.mono loc hloc1
-          have ha1 : ∀ q ∈ a, q ∈ a1 := fun q hq => V.mono q (by simp [hq])
-          -- classification of the new marks
-          have hsplit : ∀ q, NewIn a al' q → q = loc ∨ NewIn (loc :: a) a1 q ∨ NewIn a1 al' q := by
-            intro q hq
-            by_cases hq1 : q ∈ a1
-            · by_cases hql : q = loc
-              · exact Or.inl hql
-              · exact Or.inr (Or.inl ⟨hq1, by simp [hql, hq.2]⟩)
-            · exact Or.inr (Or.inr ⟨hq.1, hq1⟩)
-          refine ⟨fun q hq => S.mono q (ha1 q hq), ?_, ?_, ?_, ?_⟩
+            rcases W.closed q hq i hi with e | e
+            · exact Or.inl e
+            · rcases List.mem_cons.mp e with e' | e'
+              · subst e'; exact Or.inl W.head
+              · exact Or.inr e'
+        · have W := hrec _ _ _ _ _ hv
+          refine ⟨W.head, by simp, fun q hq => by simp [hq], ?_, W.reach, ?_⟩
           · intro q hq
-            rcases hsplit q hq with e | e | e
-            · subst e; exact ⟨h, by simp, by rw [hloc]; exact Reach.refl _⟩
-            · exact ⟨h, by simp, by rw [hloc]; exact V.reach q e⟩
-            · obtain ⟨h', hh', r⟩ := S.reach q e
-              exact ⟨h', by simp [hh'], r⟩
-          · intro k
-            rw [S.keysIff k, mem_keys_addAll, V.keysIff k]
-            constructor
-            · rintro ((hkd | hkl | ⟨q, hq, hkq⟩) | ⟨q, hq, hkq⟩)
-              · exact Or.inl hkd
-              · exact Or.inr ⟨loc, ⟨hlocal, hia⟩, hkl⟩
-              · exact Or.inr ⟨q, ⟨S.mono q hq.1, fun hqa => hq.2 (by simp [hqa])⟩, hkq⟩
-              · exact Or.inr ⟨q, ⟨hq.1, fun hqa => hq.2 (ha1 q hqa)⟩, hkq⟩
-            · rintro (hkd | ⟨q, hq, hkq⟩)
-              · exact Or.inl (Or.inl hkd)
-              · rcases hsplit q hq with e | e | e
-                · subst e; exact Or.inl (Or.inr (Or.inl hkq))
-                · exact Or.inl (Or.inr (Or.inr ⟨q, e, hkq⟩))
-                · exact Or.inr ⟨q, e, hkq⟩
-          · intro h' hh'
-            rcases List.mem_cons.mp hh' with e | e
-            · subst e; rw [hloc]; exact hlocal
-            · exact S.closedH h' e
+            rcases List.mem_cons.mp hq with e' | e'
+            · subst e'; exact Or.inr W.head
+            · exact Or.inl e'
           · intro q hq i hi
-            rcases hsplit q hq with e | e | e
-            · subst e; exact S.mono i (V.closedP i hi)
-            · exact S.mono i (V.closedN q e i hi)
-            · exact S.closedN q e i hi
+            rcases W.closed q hq i hi with e | e
+            · exact Or.inl e
+            · cases e
+      obtain ⟨hhead, hloc1, hmono1, hmarks1, hreach1, hclosed1⟩ := key
+      refine ⟨sl ++ n2, by rw [hl2]; simp, fun q hq => S.mono q (hmono1 q hq), ?_, ?_, ?_, ?_⟩
+      · intro q hq
+        rcases S.marks q hq with e | e
+        · rcases hmarks1 q e with e' | e'
+          · exact Or.inl e'
+          · exact Or.inr (by simp [e'])
+        · exact Or.inr (by simp [e])
+      · intro q hq
+        rcases List.mem_append.mp hq with e | e
+        · exact ⟨h, by simp, by rw [hloc]; exact hreach1 q e⟩
+        · obtain ⟨h', hh', r⟩ := S.reach q e
+          exact ⟨h', by simp [hh'], r⟩
+      · intro h' hh'
+        rcases List.mem_cons.mp hh' with e | e
+        · subst e; rw [hloc]; exact S.mono _ hloc1
+        · exact S.closedH h' e
+      · intro q hq i hi
+        rcases List.mem_append.mp hq with e | e
+        · rcases hclosed1 q e i hi with e' | e'
+          · exact Or.inl (by simp [e'])
+          · exact Or.inr e'
+        · rcases S.closedN q e i hi with e' | e'
+          · exact Or.inl (by simp [e'])
+          · rcases hmarks1 i e' with e'' | e''
+            · exact Or.inr e''
+            · exact Or.inl (by simp [e''])
 
-theorem visit_spec (fs : FS) (cwd : Path) (h5 : H5Leaf fs) :
-    ∀ f p al al' doc, visit fs cwd f p al = .ok al' doc → VSpec fs cwd p al al' doc := by
+theorem visit_wspec (sh : Bool) (fs : FS) (cwd : Path) :
+    ∀ f p al al' l doc, visit sh fs cwd f p al = .ok al' l doc → WSpec fs cwd p al al' l := by
   intro f
   induction f with
-  | zero => intro p al al' doc h; simp [visit] at h
+  | zero => intro p al al' l doc h; simp [visit] at h
   | succ f ih =>
-    intro p al al' doc h
+    intro p al al' l doc h
     unfold visit at h
     cases hfile : fs p with
     | none => simp [hfile] at h
     | some file =>
       simp only [hfile] at h
-      have hleaf : ∀ q qf a a' sub, fs q = some qf → qf.hrefs = [] → visit fs cwd f q a = .ok a' sub →
-          a' = a ∧ sub = qf.comps := by
-        intro q qf a a' sub hq hl hv
-        cases f with
-        | zero => simp [visit] at hv
-        | succ g =>
-          rw [visit_leaf fs cwd g q qf a hq hl] at hv
-          cases hv; exact ⟨rfl, rfl⟩
-      have hsome : ∀ q a a' sub, visit fs cwd f q a = .ok a' sub → ∃ qf, fs q = some qf := by
-        intro q a a' sub hv
-        cases f with
-        | zero => simp [visit] at hv
-        | succ g =>
-          cases hq : fs q with
-          | none => simp [visit, hq] at hv
-          | some qf => exact ⟨qf, rfl⟩
-      have S := fold_spec fs cwd p.dropLast (visit fs cwd f) ih hleaf hsome h5 file.hrefs al file.comps al' doc h
-      have hfk : fileKeys fs p = keys file.comps := by simp [fileKeys, hfile]
-      refine ⟨S.mono, ?_, ?_, ?_, S.closedN⟩
-      · intro q hq
-        obtain ⟨h', hh', r⟩ := S.reach q hq
-        exact Reach.head hfile hh' r
-      · intro k; rw [S.keysIff k, hfk]
-      · intro i hi
+      obtain ⟨new, hl, S⟩ := fold_wspec sh fs cwd p.dropLast (visit sh fs cwd f) ih file.hrefs al [p] file.comps al' l doc h
+      have hl' : l = p :: new := by simpa using hl
+      subst hl'
+      have hincs : ∀ i ∈ incs fs cwd p, i ∈ al' := by
+        intro i hi
         simp only [incs, hfile, List.mem_map] at hi
         obtain ⟨h', hh', rfl⟩ := hi
         exact S.closedH h' hh'
+      refine ⟨by simp, S.mono, ?_, ?_, ?_⟩
+      · intro q hq
+        rcases S.marks q hq with e | e
+        · exact Or.inl e
+        · exact Or.inr (by simp [e])
+      · intro q hq
+        rcases List.mem_cons.mp hq with e | e
+        · subst e; exact Reach.refl _
+        · obtain ⟨h', hh', r⟩ := S.reach q e
+          exact Reach.head hfile hh' r
+      · intro q hq i hi
+        rcases List.mem_cons.mp hq with e | e
+        · subst e
+          rcases S.marks i (hincs i hi) with e' | e'
+          · exact Or.inr e'
+          · exact Or.inl (by simp [e'])
+        · rcases S.closedN q e i hi with e' | e'
+          · exact Or.inl (by simp [e'])
+          · exact Or.inr e'
 
 end NmlVerif.Include
